@@ -1,4 +1,523 @@
-(* placeholder: model under construction *)
-From Coq Require Import List ZArith.
+(* Model of the navigation and search views of TexSoup.data.TexExpr / TexNode:
+   all, contents, children, descendants, text, __iter__, __getitem__, parent,
+   __match__ (TexExpr and TexEnv), find_all, find, count, __getattr__.
+
+   The functions are defined on ANY [expr], not only on parsed ones.
+
+   A TexNode wrapper is modelled by the wrapped expression together with its
+   *path*: the list of indices, each into the `contents` view of the node
+   before, that leads to it from the node the walk started at.  TexNode
+   wrappers are rebuilt by the code on every access; what identifies a node
+   is the wrapped expression object, i.e. its place in the tree, i.e. its
+   path.  `node.parent` is the wrapper the node was produced from: the path
+   without its last index.  String items of a view (Token / str) are carried
+   in the same shape [(path, expr)] with [expr] an [ERaw] (a Token: text and
+   position) or an [EStr] (a plain str).  *)
+From Coq Require Import List NArith ZArith Bool.
+From TexModel Require Import Base Tables Chars Tokenizer Tree Reader.
 Import ListNotations.
-Definition run_view (inp : list Z) : list Z := [].
+
+(* ------------------------------------------------------------------ *)
+(* Python helpers                                                      *)
+
+(* str.isspace(): non-empty and every character is whitespace *)
+Definition str_isspace (s : str) : bool :=
+  match s with
+  | [] => false
+  | _ :: _ => forallb is_ws s
+  end.
+
+(* `if isinstance(content, TexText): content = content._text` : a TexText
+   wraps a Token (text, position) *)
+Definition unwrap (e : expr) : expr :=
+  match e with
+  | EText t => ERaw (ttext t) (tpos t)
+  | _ => e
+  end.
+
+(* `isinstance(content, str) and content.isspace()` *)
+Definition is_blank (e : expr) : bool :=
+  match e with
+  | EText t => str_isspace (ttext t)
+  | ERaw s _ => str_isspace s
+  | EStr s => str_isspace s
+  | _ => false
+  end.
+
+(* the loop body of TexExpr.contents (preserve_whitespace is never set by the
+   reader) *)
+Definition clean (l : list expr) : list expr :=
+  filter (fun x => negb (is_blank x)) (map unwrap l).
+
+(* isinstance(x, TexExpr): everything but bare Tokens and plain strs *)
+Definition is_texexpr (e : expr) : bool :=
+  match e with
+  | ERaw _ _ | EStr _ => false
+  | _ => true
+  end.
+
+(* isinstance(x, (TexEnv, TexCmd)) *)
+Definition is_env_or_cmd (e : expr) : bool :=
+  match e with
+  | ECmd _ _ _ _ | ENamed _ _ _ _ | EMath _ _ _ | EGroup _ _ _ | ERoot _ => true
+  | _ => false
+  end.
+
+(* isinstance(x, str): TexText, Token or plain str *)
+Definition is_strlike (e : expr) : bool :=
+  match e with
+  | EText _ | ERaw _ _ | EStr _ => true
+  | _ => false
+  end.
+
+(* isinstance(x, TexEnv) *)
+Definition is_env (e : expr) : bool :=
+  match e with
+  | ENamed _ _ _ _ | EMath _ _ _ | EGroup _ _ _ | ERoot _ => true
+  | _ => false
+  end.
+
+(* ------------------------------------------------------------------ *)
+(* TexExpr.contents and TexExpr.all (mutually recursive in the code:
+   `all` yields, for each argument, the argument's `contents`)          *)
+
+Fixpoint expr_contents (e : expr) : list expr :=
+  let fix over_args (l : list expr) : list expr :=
+      match l with
+      | [] => []
+      | a :: l' => expr_contents a ++ over_args l'
+      end in
+  match e with
+  | EText t => clean [ERaw (ttext t) (tpos t)]     (* TexText: _contents = [text] *)
+  | ERaw _ _ => []                                 (* not a TexExpr: never an argument *)
+  | EStr _ => []
+  | ECmd _ a b _ => clean (over_args a ++ b)
+  | ENamed _ a b _ => clean (over_args a ++ b)
+  | EMath _ b _ => clean b
+  | EGroup _ b _ => clean b
+  | ERoot b => clean b
+  end.
+
+Definition expr_all (e : expr) : list expr :=
+  match e with
+  | EText t => [ERaw (ttext t) (tpos t)]
+  | ERaw _ _ => []
+  | EStr _ => []
+  | ECmd _ a b _ => flat_map expr_contents a ++ b
+  | ENamed _ a b _ => flat_map expr_contents a ++ b
+  | EMath _ b _ => b
+  | EGroup _ b _ => b
+  | ERoot b => b
+  end.
+
+(* TexExpr.children *)
+Definition expr_children (e : expr) : list expr :=
+  filter is_env_or_cmd (expr_contents e).
+
+(* nesting depth: the fuel of the node-level recursions *)
+Fixpoint edepth (e : expr) : nat :=
+  let fix mx (l : list expr) : nat :=
+      match l with
+      | [] => O
+      | x :: l' => Nat.max (edepth x) (mx l')
+      end in
+  match e with
+  | EText _ => O
+  | ERaw _ _ => O
+  | EStr _ => O
+  | ECmd _ a b _ => S (Nat.max (mx a) (mx b))
+  | ENamed _ a b _ => S (Nat.max (mx a) (mx b))
+  | EMath _ b _ => S (mx b)
+  | EGroup _ b _ => S (mx b)
+  | ERoot b => S (mx b)
+  end.
+
+(* ------------------------------------------------------------------ *)
+(* TexNode                                                             *)
+
+Definition path := list nat.
+Definition item := (path * expr)%type.
+
+Fixpoint wrap_from (p : path) (i : nat) (l : list expr) : list item :=
+  match l with
+  | [] => []
+  | x :: l' => (p ++ [i], x) :: wrap_from p (S i) l'
+  end.
+
+(* TexNode.contents: TexExpr items are wrapped (parent = self), strings are
+   yielded as they are *)
+Definition contents (n : item) : list item :=
+  wrap_from (fst n) O (expr_contents (snd n)).
+
+(* TexNode.children: wrappers of expr.children (a sub-list of expr.contents;
+   the index recorded in the path is the one in `contents`) *)
+Definition children (n : item) : list item :=
+  filter (fun it => is_env_or_cmd (snd it)) (contents n).
+
+(* TexNode.all: asserts that every item of expr.all is a TexExpr *)
+Definition node_all (n : item) : option (list expr) :=
+  if forallb is_texexpr (expr_all (snd n)) then Some (expr_all (snd n)) else None.
+
+(* node.parent of a wrapper produced by a view *)
+Definition parent_path (p : path) : path := removelast p.
+(* node.parent.parent...  (k times) *)
+Fixpoint ancestor_path (k : nat) (p : path) : path :=
+  match k with
+  | O => p
+  | S k' => ancestor_path k' (parent_path p)
+  end.
+
+(* __iter__ / __getitem__ : list(self.contents)[i] with Python indexing;
+   None = IndexError *)
+Definition node_iter (n : item) : list item := contents n.
+Definition node_getitem (n : item) (i : Z) : option item :=
+  let l := contents n in
+  let len := Z.of_nat (length l) in
+  let j := if (i <? 0)%Z then (i + len)%Z else i in
+  if (j <? 0)%Z then None else nth_error l (Z.to_nat j).
+
+(* itertools.chain(self.contents, *[c.descendants for c in self.children]) *)
+Fixpoint descendants_f (fuel : nat) (n : item) : list item :=
+  match fuel with
+  | O => []
+  | S f => contents n ++ flat_map (descendants_f f) (children n)
+  end.
+Arguments descendants_f : simpl never.
+Definition descendants (n : item) : list item :=
+  descendants_f (S (edepth (snd n))) n.
+
+(* TexNode.text *)
+Fixpoint text_f (fuel : nat) (n : item) : list item :=
+  match fuel with
+  | O => []
+  | S f => flat_map (fun it => if is_strlike (snd it) then [it] else text_f f it)
+                    (contents n)
+  end.
+Arguments text_f : simpl never.
+Definition text (n : item) : list item := text_f (S (edepth (snd n))) n.
+
+(* ------------------------------------------------------------------ *)
+(* __match__                                                           *)
+
+Inductive query :=
+| QName (s : str)             (* find_all('name') / find_all('\ref{x}') *)
+| QList (l : list str).       (* find_all(['a', 'b']) *)
+
+Definition c_lbrace : N := 123%N.
+Definition c_lbracket : N := 91%N.
+Definition s_text : str := [116; 101; 120; 116]%N.              (* 'text' *)
+Definition s_roottex : str := [91; 116; 101; 120; 93]%N.        (* '[tex]' *)
+
+(* the `name` attribute *)
+Definition expr_name (e : expr) : str :=
+  match e with
+  | EText _ => s_text
+  | ERaw _ _ => []
+  | EStr _ => []
+  | ECmd n _ _ _ => n
+  | ENamed n _ _ _ => n
+  | EMath k _ _ => math_name k
+  | EGroup k _ _ => group_name k
+  | ERoot _ => s_roottex
+  end.
+
+(* begin / end / str(args) of a TexEnv *)
+Definition expr_begin (e : expr) : str :=
+  match e with
+  | ENamed n _ _ _ => env_begin n
+  | EMath k _ _ => math_begin k
+  | EGroup k _ _ => group_begin k
+  | _ => []
+  end.
+Definition expr_end (e : expr) : str :=
+  match e with
+  | ENamed n _ _ _ => env_end n
+  | EMath k _ _ => math_end k
+  | EGroup k _ _ => group_end k
+  | _ => []
+  end.
+Definition expr_args (e : expr) : list expr :=
+  match e with
+  | ECmd _ a _ _ => a
+  | ENamed _ a _ _ => a
+  | _ => []
+  end.
+Definition expr_begin_args (e : expr) : str := expr_begin e ++ estr_list (expr_args e).
+
+(* `'{' in name or '[' in name`: substring test on a str, membership of the
+   one-character strings on a list *)
+Definition query_has_brace (q : query) : bool :=
+  match q with
+  | QName s => mem_N c_lbrace s || mem_N c_lbracket s
+  | QList l => mem_str [c_lbrace] l || mem_str [c_lbracket] l
+  end.
+
+(* TexExpr.__match__ (attrs is empty in find_all) *)
+Definition texexpr_match (q : query) (e : expr) : bool :=
+  if query_has_brace q then
+    match q with
+    | QName s => str_eqb (estr e) s            (* str(self) == name *)
+    | QList _ => false                         (* a str never equals a list *)
+    end
+  else
+    match q with
+    | QList l => mem_str (expr_name e) l
+    | QName s => str_eqb (expr_name e) s
+    end.
+
+(* TexEnv.__match__ *)
+Definition texenv_match (q : query) (e : expr) : bool :=
+  match q with
+  | QName s =>
+    if str_eqb s (expr_name e) || str_eqb s (expr_begin_args e)
+       || str_eqb s (expr_begin e) || str_eqb s (expr_end e)
+    then true else texexpr_match q e
+  | QList _ => texexpr_match q e               (* a list equals none of the four strs *)
+  end.
+
+(* hasattr(descendant, '__match__') and descendant.__match__(name, attrs) *)
+Definition match_item (q : query) (e : expr) : bool :=
+  match e with
+  | ERaw _ _ => false
+  | EStr _ => false
+  | EText _ => texexpr_match q e
+  | ECmd _ _ _ _ => texexpr_match q e
+  | _ => texenv_match q e
+  end.
+
+Definition find_all (q : query) (n : item) : list item :=
+  filter (fun it => match_item q (snd it)) (descendants n).
+
+(* find_all(...)[0], IndexError -> None *)
+Definition find (q : query) (n : item) : option item :=
+  match find_all q n with
+  | [] => None
+  | x :: _ => Some x
+  end.
+
+Definition count (q : query) (n : item) : nat := length (find_all q n).
+
+(* attribute access: __getattr__ is only reached when normal lookup fails,
+   i.e. for names that are neither class attributes (dir(TexNode)) nor set by
+   __init__ (expr, parent, char_to_line) *)
+Definition instance_attrs : list str :=
+  [[101; 120; 112; 114]%N; [112; 97; 114; 101; 110; 116]%N;
+   [99; 104; 97; 114; 95; 116; 111; 95; 108; 105; 110; 101]%N].
+Definition is_real_attr (a : str) : bool :=
+  mem_str a Tables.dir_texnode || mem_str a instance_attrs.
+
+Inductive attr_result :=
+| AReal                          (* a real attribute: not a search *)
+| AFound (r : option item).      (* self.find(attr) or None *)
+
+Definition getattr (a : str) (n : item) : attr_result :=
+  if is_real_attr a then AReal else AFound (find (QName a) n).
+
+(* ------------------------------------------------------------------ *)
+(* independent structural enumerations used by the specifications      *)
+
+(* every non-blank content item below e -- bodies of environments, items,
+   math regions, groups, and the contents of arguments (an argument itself
+   is not listed) -- depth first, left to right, arguments before body *)
+Fixpoint walk (e : expr) : list expr :=
+  let fix over_args (l : list expr) : list expr :=
+      match l with
+      | [] => []
+      | a :: l' => walk a ++ over_args l'
+      end in
+  let fix over_body (l : list expr) : list expr :=
+      match l with
+      | [] => []
+      | x :: l' =>
+        match x with
+        | EText t => if str_isspace (ttext t) then [] else [ERaw (ttext t) (tpos t)]
+        | _ => if is_blank x then [] else x :: walk x
+        end ++ over_body l'
+      end in
+  match e with
+  | EText t => if str_isspace (ttext t) then [] else [ERaw (ttext t) (tpos t)]
+  | ERaw _ _ => []
+  | EStr _ => []
+  | ECmd _ a b _ => over_args a ++ over_body b
+  | ENamed _ a b _ => over_args a ++ over_body b
+  | EMath _ b _ => over_body b
+  | EGroup _ b _ => over_body b
+  | ERoot b => over_body b
+  end.
+
+(* the non-blank string leaves strictly inside e, in document order
+   (arguments before body, left to right, depth first) *)
+Fixpoint leaves (e : expr) : list expr :=
+  let fix over_args (l : list expr) : list expr :=
+      match l with
+      | [] => []
+      | a :: l' => leaves a ++ over_args l'
+      end in
+  let fix over_body (l : list expr) : list expr :=
+      match l with
+      | [] => []
+      | x :: l' =>
+        match x with
+        | EText t => if str_isspace (ttext t) then [] else [ERaw (ttext t) (tpos t)]
+        | ERaw s p => if str_isspace s then [] else [ERaw s p]
+        | EStr s => if str_isspace s then [] else [EStr s]
+        | _ => leaves x
+        end ++ over_body l'
+      end in
+  match e with
+  | EText t => if str_isspace (ttext t) then [] else [ERaw (ttext t) (tpos t)]
+  | ERaw _ _ => []
+  | EStr _ => []
+  | ECmd _ a b _ => over_args a ++ over_body b
+  | ENamed _ a b _ => over_args a ++ over_body b
+  | EMath _ b _ => over_body b
+  | EGroup _ b _ => over_body b
+  | ERoot b => over_body b
+  end.
+
+(* ------------------------------------------------------------------ *)
+(* run_view: the driver entry.
+     input : strict? ; nq ; query*nq ; source code points
+             query = 0 ; len ; chars            (a name)
+                   | 1 ; k ; (len ; chars)*k    (a list of names)
+     output: -1 ; error code                                when parse fails
+             one record per node, for the root and then every node of
+             descendants(root), in that order (see enc_node)            *)
+
+Definition enc_str (s : str) : list Z := Z.of_nat (length s) :: map Z.of_N s.
+Definition enc_path (p : path) : list Z := Z.of_nat (length p) :: map Z.of_nat p.
+
+Definition class_code (e : expr) : Z :=
+  match e with
+  | EText _ => 0
+  | ERaw _ _ => 1
+  | EStr _ => 2
+  | ECmd _ _ _ _ => 3
+  | ENamed _ _ _ _ => 4
+  | EMath MInline _ _ => 5
+  | EMath MDisplay _ _ => 6
+  | EMath MParen _ _ => 7
+  | EMath MBracket _ _ => 8
+  | EGroup GBrace _ _ => 9
+  | EGroup GBracket _ _ => 10
+  | ERoot _ => 11
+  end%Z.
+
+Definition epos (e : expr) : Z :=
+  match e with
+  | EText t => tpos t
+  | ERaw _ p => p
+  | EStr _ => 0
+  | ECmd _ _ _ p => p
+  | ENamed _ _ _ p => p
+  | EMath _ _ p => p
+  | EGroup _ _ p => p
+  | ERoot _ => (-1)
+  end%Z.
+
+(* an item of expr.all: class, position, text *)
+Definition enc_expr (e : expr) : list Z := class_code e :: epos e :: enc_str (estr e).
+
+(* an item of a node-level view: wrappers additionally show which node they
+   are (path) and which node their `parent` is *)
+Definition enc_item (it : item) : list Z :=
+  if is_texexpr (snd it)
+  then class_code (snd it) :: epos (snd it) :: enc_path (fst it)
+         ++ enc_path (parent_path (fst it)) ++ enc_str (estr (snd it))
+  else enc_expr (snd it).
+
+Definition enc_list {A} (f : A -> list Z) (l : list A) : list Z :=
+  Z.of_nat (length l) :: flat_map f l.
+
+Definition enc_opt_item (o : option item) : list Z :=
+  match o with
+  | None => [0%Z]
+  | Some it => 1%Z :: enc_item it
+  end.
+
+Definition enc_query (n : item) (q : query) : list Z :=
+  ((-1010)%Z :: enc_list (fun it => enc_path (fst it)) (find_all q n))
+    ++ enc_opt_item (find q n)
+    ++ [Z.of_nat (count q n)]
+    ++ match q with
+       | QName s =>
+         match getattr s n with
+         | AReal => [2%Z]
+         | AFound o => enc_opt_item o
+         end
+       | QList _ => [3%Z]
+       end.
+
+Definition enc_node (qs : list query) (n : item) : list Z :=
+  ((-1002)%Z :: enc_path (fst n))
+    ++ [class_code (snd n); epos (snd n)]
+    ++ enc_str (expr_name (snd n))
+    ++ enc_str (estr (snd n))
+    ++ ((-1003)%Z :: enc_list enc_expr (expr_all (snd n)))
+    ++ [(-1004)%Z; match node_all n with Some _ => 1 | None => 0 end]%Z
+    ++ ((-1005)%Z :: enc_list enc_item (contents n))
+    ++ ((-1006)%Z :: enc_list enc_item (children n))
+    ++ ((-1007)%Z :: enc_list enc_item (descendants n))
+    ++ ((-1008)%Z :: enc_list enc_item (text n))
+    ++ ((-1009)%Z :: enc_opt_item (node_getitem n 0) ++ enc_opt_item (node_getitem n (-1))
+                  ++ enc_opt_item (node_getitem n 1) ++ enc_opt_item (node_getitem n (-2)))
+    ++ flat_map (enc_query n) qs.
+
+Definition err_code (e : err) : Z :=
+  match e with
+  | EOFError => 1
+  | TypeError => 2
+  | AssertionError => 3
+  | StopIteration => 4
+  | KeyError => 5
+  | TokenizerError => 6
+  | OutOfFuel => 7
+  end%Z.
+
+Definition take_str (l : list Z) : str * list Z :=
+  match l with
+  | [] => ([], [])
+  | k :: l' => (map Z.to_N (firstn (Z.to_nat k) l'), skipn (Z.to_nat k) l')
+  end.
+
+Fixpoint take_strs (k : nat) (l : list Z) : list str * list Z :=
+  match k with
+  | O => ([], l)
+  | S k' => let '(s, l1) := take_str l in
+            let '(ss, l2) := take_strs k' l1 in
+            (s :: ss, l2)
+  end.
+
+Fixpoint take_queries (k : nat) (l : list Z) : list query * list Z :=
+  match k with
+  | O => ([], l)
+  | S k' =>
+    match l with
+    | [] => ([], [])
+    | kind :: l0 =>
+      let '(q, l1) :=
+          if (kind =? 0)%Z then let '(s, r) := take_str l0 in (QName s, r)
+          else match l0 with
+               | [] => (QList [], [])
+               | m :: l0' => let '(ss, r) := take_strs (Z.to_nat m) l0' in (QList ss, r)
+               end in
+      let '(qs, l2) := take_queries k' l1 in
+      (q :: qs, l2)
+    end
+  end.
+
+Definition view_of_tree (qs : list query) (e : expr) : list Z :=
+  let root : item := ([], e) in
+  flat_map (enc_node qs)
+           (root :: filter (fun it => is_texexpr (snd it)) (descendants root)).
+
+Definition run_view (inp : list Z) : list Z :=
+  match inp with
+  | strict :: nq :: rest =>
+    let '(qs, src) := take_queries (Z.to_nat nq) rest in
+    match parse (map Z.to_N src) (negb (strict =? 0)%Z) [] with
+    | Ok e => view_of_tree qs e
+    | Err er => [(-1)%Z; err_code er]
+    end
+  | _ => [(-2)%Z]
+  end.
